@@ -88,6 +88,8 @@ def run_case(case):
     if case["state2"] != "none":
         a2, b2 = populate(tw, "/vol2", case["state2"], uid, case["name2"])
     tw.nodes.append({"p": "/vol/w/new-file", "t": "f", "c": "to be trashed"})
+    if case["state2"] != "none":
+        tw.nodes.append({"p": "/vol2/w/pre-file", "t": "f", "c": "trashed first"})
     spec = tw.spec(cwd="/vol/w")
     sandbox.build_world(spec)
     before = sandbox.snapshot()
@@ -96,7 +98,10 @@ def run_case(case):
     insecure = case["state"] in INSECURE
     results = []
     if cmd == "put":
-        results.append(runner.run(spec, "trash-put", ["/vol/w/new-file"]))
+        # (with a second volume, a file there is trashed FIRST in the same invocation: verdicts
+        # about one volume's .Trash must not be reused for another volume)
+        pre = ["/vol2/w/pre-file"] if case["state2"] != "none" else []
+        results.append(runner.run(spec, "trash-put", pre + ["/vol/w/new-file"]))
     elif cmd == "list":
         results.append(runner.run(spec, "trash-list", []))
     elif cmd == "empty":
@@ -154,7 +159,7 @@ def run_case(case):
                 out.fail("valid_not_purged", "%s did not purge valid %s/.Trash/%d" % (cmd, vol, uid), **t)
         elif cmd == "put" and vol == "/vol":
             want = (vol + "/.Trash/%d" % uid) if state == "sticky" else (vol + "/.Trash-%d" % uid)
-            got = [p for p in after if p not in before and "/files/" in p]
+            got = [p for p in after if p not in before and "/files/" in p and p.startswith("/vol/")]
             if len(got) != 1 or not got[0].startswith(want + "/files/"):
                 out.fail("put_wrong_dir", "put used %s, expected %s (exit %d, stderr %r)" % (
                     got, want, res.code, res.err[-200:]), **t)
